@@ -1,6 +1,7 @@
 package main
 
 import (
+	"os"
 	"go/constant"
 	"fmt"
 	"go/token"
@@ -1333,6 +1334,49 @@ func c04once(p *Prog, r *Report) {
 			}
 		}
 		_ = reach
+		if !okGuard {
+			// the same statement on feasible paths (jump threading over constant results): within one
+			// iteration over the old queue, (a) the re-queue is not reachable after the action, and
+			// (b) no iteration completes with neither the action nor the re-queue
+			var outer *loopInfo
+			for _, l := range naturalLoops(fn) {
+				if !l.body[ac.Block()] {
+					continue
+				}
+				if s2, ok := loopSourceOf(fn, l); ok && s2 != nil && flowsFrom(s2, func(x ssa.Value) bool { fv, _ := fieldOf(x); return fv == fUE }) {
+					if outer == nil || len(l.body) > len(outer.body) {
+						outer = l
+					}
+				}
+			}
+			if outer != nil && outer.body[action.Block()] {
+				okA, okB := true, true
+				forwardFrom(action.Block(), func(x *ssa.BasicBlock) bool {
+					if x == outer.head || !outer.body[x] {
+						return false
+					}
+					if x == ac.Block() {
+						okA = false
+						return false
+					}
+					return true
+				})
+				forwardFrom(outer.head, func(x *ssa.BasicBlock) bool {
+					if x == action.Block() || x == ac.Block() || !outer.body[x] {
+						return false
+					}
+					if x == outer.head {
+						okB = false
+						return false
+					}
+					return true
+				})
+				okGuard = okA && okB
+				if os.Getenv("BBL_DEBUG") != "" {
+					fmt.Fprintln(os.Stderr, "keep-iff: okA", okA, "okB", okB)
+				}
+			}
+		}
 		r.Check(okGuard, rule, "DecideRoundReceived:keep-iff-not-received", p.ipos(ac), fnName(fn), "an event is re-queued exactly when no round received it in this pass", "the condition under which an event stays in the undetermined queue is not 'not received': a received event could be kept (committed twice) or an unreceived one dropped (never committed)")
 		// the value appended is the loop's event
 		return false
